@@ -18,7 +18,7 @@ from hplsim import build, core, gen, seams
 PROP = 'C16'
 
 TIERS = {
-    'quick': dict(runs=16000, ops=(3, 10), wall=150, abort_rate=0.06),
+    'quick': dict(runs=16000, ops=(3, 10), wall=300, abort_rate=0.06),
     'thorough': dict(runs=120000, ops=(3, 14), wall=2400, abort_rate=0.15),
 }
 
